@@ -619,3 +619,10 @@ def x1(cx: Cx, ob: Ob) -> None:
     from .c10 import check_no_aliasing
 
     check_no_aliasing(cx, ob)
+
+
+@obligation("C17-X3", "no memoised derived values (cached_property / lru_cache) on Record, Reference or Converter objects (shared with C05): the resolver answers from the live converter - a memoised expand_pair (or any cached query result) keeps answering 'unknown prefix' after add_prefix, while expand knows it", floor=3)
+def x3(cx: Cx, ob: Ob) -> None:
+    from ..rules import cached_derivations
+
+    cached_derivations(cx, ob)
